@@ -443,7 +443,10 @@ def run_flows_case(spec, states, exceptions, raise_error, verbose):
         excepted = name in exceptions or PROC_NAMES[fl[0]] in exceptions or PROC_NAMES[fl[1]] in exceptions
         if stt in ("nan", "neg-big") and not excepted:
             expected.add(name)
-    st, info, recs = with_capture(lambda: mfa.check_flows(exceptions=list(exceptions), raise_error=raise_error, verbose=verbose))
+    if exceptions:
+        st, info, recs = with_capture(lambda: mfa.check_flows(exceptions=list(exceptions), raise_error=raise_error, verbose=verbose))
+    else:  # rely on the default (no exceptions); earlier calls in this process passed non-empty lists
+        st, info, recs = with_capture(lambda: mfa.check_flows(raise_error=raise_error, verbose=verbose))
     if raise_error:
         if expected and st != "raised":
             return fail("must-raise", f"flows {sorted(expected)} are faulty and not excepted, but nothing was raised")
@@ -453,10 +456,12 @@ def run_flows_case(spec, states, exceptions, raise_error, verbose):
     if st == "raised":
         return fail("raised", f"raised {info} with raise_error=False")
     flagged = set()
+    import re as _re
+
     for msg in recs:
-        head = msg.split("\n")[0]
+        head = msg.split("\n")[0]  # (verbose mode lists the offending items on further lines)
         for k in range(len(spec["flows"])):
-            if f"F{k+1}!" in head or head.rstrip().endswith(f"F{k+1}") or f"F{k+1} " in head:
+            if _re.search(rf"(?<![A-Za-z0-9_])F{k+1}(?![A-Za-z0-9_])", head):
                 flagged.add(f"F{k+1}")
     if flagged != expected:
         return fail("flagged-set", f"flagged {sorted(flagged)} (messages {recs}), expected exactly {sorted(expected)}")
